@@ -362,6 +362,47 @@ type c17Case struct {
 	Acc   string  `json:"accessor"`
 	State int     `json:"state"` // 0 value present, 1 key absent, 2 key present with nil value
 	Val   obs.Hex `json:"val"`
+	Hdr   int     `json:"hdr,omitempty"` // header shape of the packet around the option (c17Packet)
+	Bg    uint64  `json:"bg,omitempty"`  // which well-formed OTHER options accompany it (bit i: c17Pool[i])
+}
+
+// c17Pool: well-formed values of the other options a packet may carry. An accessor reads its own option only:
+// whatever else the packet holds — opcode, addresses, other options that are related by some RFC (classless
+// routes next to a router option, overload next to names, a client identifier next to a class identifier) —
+// changes nothing about "the RFC interpretation of that option's raw value".
+var c17Pool = []struct {
+	code uint8
+	v    []byte
+}{
+	{1, []byte{255, 255, 255, 0}}, {3, []byte{10, 0, 0, 1}}, {6, []byte{8, 8, 8, 8, 8, 8, 4, 4}}, {12, []byte("host")}, {15, []byte("example.org")},
+	{17, []byte("/root")}, {28, []byte{10, 0, 0, 255}}, {42, []byte{10, 0, 0, 2}}, {43, []byte{1, 2, 3}}, {44, []byte{10, 0, 0, 3}}, {50, []byte{10, 0, 0, 9}},
+	{51, []byte{0, 0, 14, 16}}, {52, []byte{3}}, {53, []byte{5}}, {54, []byte{10, 0, 0, 1}}, {55, []byte{1, 3, 6, 15, 121}}, {56, []byte("msg")}, {57, []byte{5, 220}},
+	{58, []byte{0, 0, 7, 8}}, {59, []byte{0, 0, 12, 78}}, {60, []byte("cls")}, {61, []byte{1, 2, 0x11, 0x22, 0x33, 0x44, 0x55}}, {66, []byte("tftp")}, {67, []byte("boot")},
+	{77, []byte{3, 'a', 'b', 'c'}}, {82, []byte{1, 2, 'x', 'y'}}, {93, []byte{0, 7}}, {97, append([]byte{0}, make([]byte, 16)...)}, {108, []byte{0, 0, 0, 60}}, {116, []byte{1}},
+	{119, []byte{1, 'a', 0}}, {121, []byte{24, 10, 0, 0, 10, 0, 0, 1}}, {124, []byte{0, 0, 0, 9, 2, 'a', 'b'}}, {125, []byte{0, 0, 0, 9, 3, 1, 1, 'x'}}, {249, []byte{0, 10, 0, 0, 1}},
+}
+
+// c17Packet builds the packet around the option under test.
+func c17Packet(c c17Case, own uint8) *dhcpv4.DHCPv4 {
+	p, _ := dhcpv4.New()
+	switch c.Hdr % 4 {
+	case 1:
+		p.OpCode = dhcpv4.OpcodeBootReply
+		p.YourIPAddr, p.ServerIPAddr = net.IP{10, 0, 0, 50}, net.IP{10, 0, 0, 1}
+	case 2:
+		p.SetBroadcast()
+		p.GatewayIPAddr, p.HopCount, p.ClientIPAddr = net.IP{10, 0, 9, 1}, 3, net.IP{10, 0, 0, 50}
+	case 3:
+		p.OpCode = dhcpv4.OpcodeBootReply
+		p.HWType, p.ClientHWAddr = 32, nil
+		p.ServerHostName, p.BootFileName = "srv", "pxelinux.0"
+	}
+	for i, o := range c17Pool {
+		if c.Bg&(1<<uint(i)) != 0 && o.code != own {
+			p.Options[o.code] = append([]byte{}, o.v...)
+		}
+	}
+	return p
 }
 
 var c17tab = c17Table()
@@ -378,7 +419,7 @@ var c17 = newChk("C17", "accessor-vs-raw",
 		if a == nil {
 			return obs.Failf("C17/harness", "known accessor", "%s", c.Acc)
 		}
-		p, _ := dhcpv4.New()
+		p := c17Packet(c, a.code)
 		var v []byte
 		switch c.State {
 		case 0:
@@ -406,8 +447,11 @@ var c17 = newChk("C17", "accessor-vs-raw",
 		}
 		rec.Class(a.name + "/" + wf)
 		if c.State == 0 && len(c.Val) > 0 {
-			rec.NonTrivial(obs.Hash64([]byte(a.name), c.Val), func() any {
-				return map[string]any{"accessor": a.name, "raw": hx(clipb(c.Val)), "result": got}
+			if c.Bg != 0 || c.Hdr != 0 {
+				rec.Class("option read inside a packet with other options / header shapes")
+			}
+			rec.NonTrivial(obs.Hash64([]byte(a.name), c.Val, []byte(fmt.Sprintf("%d/%x", c.Hdr, c.Bg))), func() any {
+				return map[string]any{"accessor": a.name, "raw": hx(clipb(c.Val)), "result": got, "header_shape": c.Hdr, "other_options_mask": fmt.Sprintf("%x", c.Bg)}
 			})
 		}
 		return nil
@@ -506,7 +550,14 @@ func TestC17_Lengths(t *testing.T) {
 		for n := 0; n <= 64; n++ {
 			for _, v := range c17Structured(a, n) {
 				c17.one(t, c17Case{Acc: a.name, State: 0, Val: v})
+				// the same value inside a reply / a relayed request that carries every other option
+				if n <= 9 || n%4 == 0 || n == 33 {
+					c17.one(t, c17Case{Acc: a.name, State: 0, Val: v, Hdr: 1 + n%3, Bg: ^uint64(0)})
+				}
 			}
+		}
+		for h := 1; h <= 3; h++ {
+			c17.one(t, c17Case{Acc: a.name, State: 1, Hdr: h, Bg: ^uint64(0)})
 		}
 	}
 	c17.rec.Class("length-enumeration 0..64")
@@ -538,7 +589,15 @@ func TestC17_Rapid(t *testing.T) {
 		default:
 			v = rapid.SliceOfN(rapid.SampledFrom([]byte{0, 1, 2, 4, 8, 24, 32, 33, 255}), n, n).Draw(rt, "small")
 		}
-		return c17Case{Acc: a.name, State: 0, Val: v}
+		c := c17Case{Acc: a.name, State: 0, Val: v}
+		if rapid.Bool().Draw(rt, "context") {
+			c.Hdr = rapid.IntRange(0, 3).Draw(rt, "hdr")
+			c.Bg = rapid.Uint64().Draw(rt, "bg")
+			if rapid.Bool().Draw(rt, "fullbg") {
+				c.Bg = ^uint64(0)
+			}
+		}
+		return c
 	}))
 }
 
